@@ -367,7 +367,7 @@ fn answers(st: &St, idx: &RevIndex) -> String {
         c.iter().map(|(k, v)| format!("{}:{}", k, v)).collect::<Vec<_>>().join(",")
     };
     let (counter, qc, h2c) = idx.prepare_gather_counters(&query);
-    let gs = match idx.gather(counter, qc, h2c, 0, &query, None) {
+    let gs = match idx.gather(counter, qc, h2c, 0, &query, Some(sourmash::selection::Selection::default())) {
         Ok(rs) => {
             if rs.is_empty() {
                 "-".to_string()
@@ -590,6 +590,18 @@ fn main() {
         "gen" => gen(&a),
         "exec" => exec_loop(new_state, step),
         "child" => child::child_main(&a.rest),
+        // like exec, without the panic capture (diagnosis)
+        "dbg" => {
+            let mut st = new_state();
+            for line in std::io::stdin().lines() {
+                let line = line.unwrap();
+                let ws: Vec<&str> = line.split_whitespace().collect();
+                if ws.first() == Some(&"case") {
+                    st = new_state();
+                }
+                println!("{}", step(&mut st, &ws));
+            }
+        }
         _ => panic!("mode"),
     }
 }
